@@ -342,10 +342,44 @@ func check(raw json.RawMessage) fw.Result {
 				continue
 			}
 			res.Count("geometry_fields_compared", 1)
+			unit := ""
+			if k < 4 {
+				unit = gs[0].MU[k]
+			} else if k < 8 {
+				unit = gs[0].PU[k-4]
+			}
 			if !near(got[k], e0[k]) {
-				res.Fail("page-geometry", sprintf("page %d (index %d, first %v, side %s, blank %v, name %q): %s is %g, the @page cascade gives %g", i+1, i, facts[i].First, facts[i].Side, facts[i].Blank, facts[i].Name, names[k], got[k], e0[k]))
+				how := ""
+				switch unit {
+				case "%":
+					how = " (a percentage of the sheet width for left/right, of the sheet HEIGHT for top/bottom: css-page-3 page-based percentages)"
+				case "auto":
+					how = " (auto margins of a page box with auto width/height are 0)"
+				case "", "px":
+				default:
+					how = " (declared in " + unit + ")"
+				}
+				res.Fail("page-geometry", sprintf("page %d (index %d, first %v, side %s, blank %v, name %q): %s is %g, the @page cascade gives %g%s", i+1, i, facts[i].First, facts[i].Side, facts[i].Blank, facts[i].Name, names[k], got[k], e0[k], how))
 				return res
 			}
+			// evidence: what kind of value the compared field was resolved from
+			switch unit {
+			case "", "px":
+			case "%":
+				res.Count("geometry_fields_from_percentage", 1)
+				if k%2 == 0 && !gs[0].Square {
+					// top / bottom margin or padding, sheet width != height: the reference matters
+					res.Count("geometry_fields_vertical_percentage_nonsquare", 1)
+				}
+			case "auto":
+				res.Count("geometry_fields_from_auto_margin", 1)
+			default:
+				res.Count("geometry_fields_from_other_units", 1)
+				res.Count("geometry_unit_"+unit, 1)
+			}
+		}
+		if su := gs[0].SU; su != "" && su != "px" {
+			res.Count("pages_size_in_other_units", 1)
 		}
 		if float64(p.PositionX) != 0 || float64(p.PositionY) != 0 {
 			res.Fail("page-geometry", sprintf("page %d is positioned at (%g,%g)", i+1, float64(p.PositionX), float64(p.PositionY)))
@@ -661,6 +695,9 @@ func check(raw json.RawMessage) fw.Result {
 		res.Fail(known.Sig, known.Msg)
 	}
 	res.Count("kind_"+in.Kind, 1)
+	if in.hasUnits() {
+		res.Count("docs_page_values_with_units", 1)
+	}
 	if in.Engine == "gotext" {
 		res.Count("engine_gotext", 1)
 	}
